@@ -48,6 +48,8 @@ func init() {
 			{"schema-read/attr/body", "reader covers writer struct tags (regions of StartElement.Name.Local comparisons, attribute provenance)", ruleSchema},
 			{"marshal-cover", "custom MarshalXML methods encode every tagged field", ruleMarshalCover},
 			{"sectpr-last", "Body.MarshalXML collects every non-section element, in order (shape of the collecting loop)", ruleSectPrLast},
+			{"chardata-verbatim", "character data is stored as read (no transformation in the value's slice)", ruleCharDataVerbatim},
+			{"marshal-guard", "custom marshalers skip a field only when the field itself is absent (guard predicates cover every field)", ruleMarshalGuard},
 		},
 		Assumptions: append([]string{"encoding/xml marshals exactly the tagged fields", "reader functions are those statically reachable from (*Document).parseDocument"}, commonAssumptions...),
 	}
@@ -61,6 +63,7 @@ func init() {
 			{"fresh-dep/media", "media naming depends on a restored, incremented counter", ruleMediaFresh},
 			{"run-container", "paragraph reader descends into run containers", ruleRunContainer},
 			{"rel-append-only", "relationship lists of an opened document are only appended to", ruleRelAppendOnly},
+			{"skip-balanced", "the element skipper balances start and end tags (depth counter or recursion)", ruleSkipBalanced},
 		},
 		Assumptions: commonAssumptions,
 	}
